@@ -556,9 +556,33 @@ def main():
                     out.append(f'  ⟨"{t}", {lean_bool(fl)}, {lean_bool(op)}, {nm}⟩')
         return ",\n".join(out)
 
+    # implicit defaults of the primitive types, plain and through a subclass
+    from kio.serial._implicit_defaults import get_implicit_default as _gid
+    from kio.schema.errors import ErrorCode as _EC
+    pybases = [("i8", prim.i8), ("i16", prim.i16), ("i32", prim.i32), ("i64", prim.i64), ("u8", prim.u8),
+               ("u16", prim.u16), ("u32", prim.u32), ("u64", prim.u64), ("f64", prim.f64), ("str", str),
+               ("bytes", bytes), ("records", prim.Records), ("uuid", uuid.UUID), ("bool", bool),
+               ("errorCode", _EC), ("i32Timedelta", prim.i32Timedelta), ("i64Timedelta", prim.i64Timedelta),
+               ("tzAware", prim.TZAware)]
+    irows = []
+    for nm, t in pybases:
+        for sub in (False, True):
+            tt = t
+            if sub:
+                try:
+                    tt = type("Sub" + nm, (t,), {})
+                except Exception:  # noqa: BLE001 - bool / an enum with members cannot be subclassed: ask for the type itself
+                    tt = t
+            try:
+                term = value_term(_gid(tt))
+                term = f"(some {term})" if term is not None else "none"
+            except Exception:  # noqa: BLE001
+                term = "none"
+            irows.append(f"  ⟨.{nm}, {lean_bool(sub)}, {term}⟩")
     dispatch_src = (
         "import Kio.Model.Dispatch\n/-! generated by harness/translate.py — do not edit -/\n"
         "namespace Kio.Generated\nopen Kio\n"
+        "def implicitRows : List ImplicitRow := [\n" + ",\n".join(irows) + "]\n"
         "def readerRows : List DispatchRow := [\n" + rows(_get_reader, _readers) + "]\n"
         "def writerRows : List DispatchRow := [\n" + rows(_get_writer, _writers) + "]\n"
         "end Kio.Generated\n")
